@@ -265,13 +265,16 @@ impl<'a, T: AsRef<str>> Tokenizer<'a, T> {
         }
 
         if let Some(pos) = latest_pos {
-            if let Ok(number) = digits.parse::<f64>() {
-                self.index += pos;
-                Some(Ok(Token::NumericLiteral(number)))
-            } else {
-                Some(Err(TokenizationError::InvalidNumber(
+            // A numeral too large for an f64 parses as infinity, which has no
+            // numeral spelling (it would be listed as `inf`, i.e. a variable).
+            match digits.parse::<f64>() {
+                Ok(number) if number.is_finite() => {
+                    self.index += pos;
+                    Some(Ok(Token::NumericLiteral(number)))
+                }
+                _ => Some(Err(TokenizationError::InvalidNumber(
                     self.index..self.index + pos,
-                )))
+                ))),
             }
         } else {
             None
